@@ -19,8 +19,11 @@ def run_batch(path):
     mod.setup()
     obl = find_obligation(mod, d['obligation'], d.get('tier', 'quick'))
     sys.setrecursionlimit(20000)
+    from .modstate import snapshot_module_globals, restore_module_globals
+    snapshot_module_globals()
     outs = []
     for vec in d['vectors']:
+        restore_module_globals()
         outs.append(core.run_concrete(obl.fn, vec))
     return d, outs
 
